@@ -99,3 +99,93 @@ package convert
 //@ func toStreamChunk
 //@   props C12
 //@   ensures imp(result1 == nil, result0 != nil && forall(i, int, imp(0 <= i && i < len(result0.DataPointGroups), result0.DataPointGroups[i] != nil && wfIDOrAlias(result0.DataPointGroups[i].DataIDOrAlias))))
+
+// ---------------------------------------------------------------- C11: converter round trips (per message type)
+// The real bodies of WireToProto and ProtoToWire are executed symbolically one after the other.
+
+//@ lemma pingRoundTrip
+//@   props C11
+//@   forall m *message.Ping
+//@   requires m != nil
+//@   let p, e1 = WireToProto(m)
+//@   let m2, e2 = ProtoToWire(p)
+//@   ensures e1 == nil
+//@   ensures p != nil && typeis(p.Message, *autogen.Message_Ping)
+//@   ensures e2 == nil
+//@   ensures typeis(m2, *message.Ping) && unbox(m2, *message.Ping) != nil
+//@   ensures unbox(m2, *message.Ping).RequestID == m.RequestID
+
+//@ lemma pongRoundTrip
+//@   props C11
+//@   forall m *message.Pong
+//@   requires m != nil
+//@   let p, e1 = WireToProto(m)
+//@   let m2, e2 = ProtoToWire(p)
+//@   ensures e1 == nil && e2 == nil
+//@   ensures typeis(m2, *message.Pong) && unbox(m2, *message.Pong) != nil
+//@   ensures unbox(m2, *message.Pong).RequestID == m.RequestID
+
+//@ lemma disconnectRoundTrip
+//@   props C11
+//@   inlineall
+//@   forall m *message.Disconnect
+//@   requires m != nil && isconst(m.ResultCode, message.ResultCode)
+//@   let p, e1 = WireToProto(m)
+//@   let m2, e2 = ProtoToWire(p)
+//@   ensures e1 == nil && e2 == nil
+//@   ensures typeis(m2, *message.Disconnect) && unbox(m2, *message.Disconnect) != nil
+//@   ensures unbox(m2, *message.Disconnect).ResultString == m.ResultString
+//@   ensures unbox(m2, *message.Disconnect).ResultCode == ite(m.ResultCode == message.ResultCodeNormalClosure, message.ResultCodeSucceeded, m.ResultCode)
+
+//@ lemma upstreamCallRoundTrip
+//@   props C11
+//@   forall m *message.UpstreamCall
+//@   requires m != nil
+//@   let p, e1 = WireToProto(m)
+//@   let m2, e2 = ProtoToWire(p)
+//@   ensures e1 == nil && e2 == nil
+//@   ensures typeis(m2, *message.UpstreamCall) && unbox(m2, *message.UpstreamCall) != nil
+//@   ensures unbox(m2, *message.UpstreamCall).CallID == m.CallID && unbox(m2, *message.UpstreamCall).RequestCallID == m.RequestCallID && unbox(m2, *message.UpstreamCall).DestinationNodeID == m.DestinationNodeID
+//@   ensures unbox(m2, *message.UpstreamCall).Name == m.Name && unbox(m2, *message.UpstreamCall).Type == m.Type && unbox(m2, *message.UpstreamCall).Payload == m.Payload
+
+//@ lemma upstreamCallAckRoundTrip
+//@   props C11
+//@   inlineall
+//@   forall m *message.UpstreamCallAck
+//@   requires m != nil && isconst(m.ResultCode, message.ResultCode)
+//@   let p, e1 = WireToProto(m)
+//@   let m2, e2 = ProtoToWire(p)
+//@   ensures e1 == nil && e2 == nil
+//@   ensures typeis(m2, *message.UpstreamCallAck) && unbox(m2, *message.UpstreamCallAck) != nil
+//@   ensures unbox(m2, *message.UpstreamCallAck).CallID == m.CallID && unbox(m2, *message.UpstreamCallAck).ResultString == m.ResultString
+//@   ensures unbox(m2, *message.UpstreamCallAck).ResultCode == ite(m.ResultCode == message.ResultCodeNormalClosure, message.ResultCodeSucceeded, m.ResultCode)
+
+//@ lemma downstreamCallRoundTrip
+//@   props C11
+//@   forall m *message.DownstreamCall
+//@   requires m != nil
+//@   let p, e1 = WireToProto(m)
+//@   let m2, e2 = ProtoToWire(p)
+//@   ensures e1 == nil && e2 == nil
+//@   ensures typeis(m2, *message.DownstreamCall) && unbox(m2, *message.DownstreamCall) != nil
+//@   ensures unbox(m2, *message.DownstreamCall).CallID == m.CallID && unbox(m2, *message.DownstreamCall).RequestCallID == m.RequestCallID && unbox(m2, *message.DownstreamCall).SourceNodeID == m.SourceNodeID
+//@   ensures unbox(m2, *message.DownstreamCall).Name == m.Name && unbox(m2, *message.DownstreamCall).Type == m.Type && unbox(m2, *message.DownstreamCall).Payload == m.Payload
+
+// a downstream chunk in alias form keeps its upstream alias (every alias value, 0 included) and stream alias
+//@ lemma downstreamChunkAliasRoundTrip
+//@   props C11
+//@   inlineall
+//@   forall m *message.DownstreamChunk
+//@   requires m != nil && m.StreamChunk != nil && len(m.StreamChunk.DataPointGroups) == 0 && typeis(m.UpstreamOrAlias, message.UpstreamAlias)
+//@   let p, e1 = WireToProto(m)
+//@   let m2, e2 = ProtoToWire(p)
+//@   ensures e1 == nil
+//@   ensures e2 == nil
+//@   ensures typeis(m2, *message.DownstreamChunk) && unbox(m2, *message.DownstreamChunk) != nil
+//@   ensures unbox(m2, *message.DownstreamChunk).StreamIDAlias == m.StreamIDAlias
+//@   ensures typeis(unbox(m2, *message.DownstreamChunk).UpstreamOrAlias, message.UpstreamAlias) && unbox(unbox(m2, *message.DownstreamChunk).UpstreamOrAlias, message.UpstreamAlias) == unbox(m.UpstreamOrAlias, message.UpstreamAlias)
+
+//@ func toDataPointGroupsProto
+//@   props C11
+//@   ensures imp(result1 == nil, len(result0) == len(in))
+//@   loop 1 invariant fresh(res) && len(res) == rangeindex + 1 && rangeindex < len(in)
